@@ -353,7 +353,7 @@ func (fr *Frame) builtin(st *State, b *ssa.Builtin, cc *ssa.CallCommon, pos toke
 		x := args[0]
 		switch u := cc.Args[0].Type().Underlying().(type) {
 		case *types.Slice:
-			return Val{T: SLen(x.T)}
+			return Val{T: ex.ghostRange(SLen(x.T), IntLit(0), nil)}
 		case *types.Basic:
 			t := App("str_len", SInt, x.T)
 			if ex.ghost == 0 {
